@@ -475,6 +475,35 @@ def from_tlc(s):
 
 
 # ------------------------------------------------------------------------------------------------ run
+BIG_N = [0, 1, 23, 24, 255, 256, 65535, 65536, 100000, 1 << 20, (1 << 20) + 1, 2 << 20, (4 << 20) - 9, 4 << 20, (4 << 20) + 1, 6 << 20, 9 << 20]
+
+
+def big_history(rng):
+    """one encoder that grows to megabytes, is read back, reset and used again, several times over: strings of every head
+    form, sizes around 1 MiB and 4 MiB, a large item after a large item, a small item after a reset"""
+    ex = ["RESET"]
+    held = 0
+    for _round in range(rng.randint(2, 4)):
+        for _ in range(rng.randint(1, 4)):
+            n = rng.choice(BIG_N if held < (24 << 20) else BIG_N[:9])
+            ex.append("WSB %s %d %d %d" % (rng.choice(["bytes", "text"]), rng.randrange(256), rng.choice([1, 3, 255, 7]), n))
+            held += n
+        k = len([ln for ln in ex if ln.startswith("WSB")]) - len([ln for ln in ex if ln.startswith("POPB")])
+        if rng.random() < 0.8:
+            cnt = sum(1 for ln in ex[max(i for i, l in enumerate(ex) if l in ("RESET", "ERESET")):] if ln.startswith("WSB"))
+            ex.append("DNEW 1")
+            ex += ["POPB 1"] * (cnt + rng.choice([0, 0, 1]))
+            ex.append("DFREE 1")
+        if rng.random() < 0.8:
+            ex.append("ERESET")
+            held = 0
+            if rng.random() < 0.6:
+                ex.append("WSB %s %d %d %d" % (rng.choice(["bytes", "text"]), rng.randrange(256), 1, rng.choice([0, 1, 5, 100, 300])))
+                held += 300
+    ex += ["DNEW 1", "POPB 1", "DFREE 1"]
+    return ex
+
+
 def run(ctx):
     thorough = ctx.tier == "thorough"
     exe = prepare(ctx)
@@ -557,6 +586,15 @@ def run(ctx):
     pipeline.drive_and_validate(ctx, exe, small, SPEC_DIR, "CborTrace", "Trace.cfg", label="cbor", nbatch=16)
     if big:
         pipeline.drive_and_validate(ctx, exe, big, SPEC_DIR, "CborTrace", "Trace.cfg", label="cborbig", nbatch=min(4, len(big)))
+    # items of megabytes on one encoder (spec/Cbor/CborBig.tla: contents as patterns, not bytes): grow, reset, reuse
+    ctx.mc(SPEC_DIR, "CborBigMC", "MC_big.cfg", timeout=600, xmx="4g", workers=4,
+           required_actions=["CborBigMC!MCWrite", "CborBigMC!MCReset", "CborBigMC!MCDecNew", "CborBigMC!MCPop", "CborBigMC!MCPopEnd"])
+    bigx = [big_history(rng) for _ in range(10 if not thorough else 120)]
+    for ex in bigx:
+        ctx.distinct.add(hash("\n".join(ex)))
+    pipeline.drive_and_validate(ctx, exe, bigx, SPEC_DIR, "CborBigTrace", "TraceBig.cfg", label="cborhuge", nbatch=min(5, len(bigx)),
+                                harness_timeout=900, env={"VH_WATCHDOG": "800"}, stale_errors=0)
+    ctx.extra["megabyte_item_executions"] = len(bigx)
     n = 0
     for tp in glob.glob(os.path.join(ctx.outdir, "cbor*", "b*.clean.ndjson")):
         with open(tp) as f:
